@@ -1,6 +1,6 @@
 (* Entry.v — executable entry points of the model, one per correspondence family:
    decode a case, run the model, encode the observable. *)
-From SLT Require Export Decode Runner Parser Unparse FsTrim Include.
+From SLT Require Export Decode Runner Parser Unparse FsTrim Include Update Subst.
 Open Scope N_scope.
 
 Definition e_event (e : event) : val :=
@@ -11,6 +11,7 @@ Definition e_event (e : event) : val :=
   | ECmd c => vtag "cmd" [VS (lit "bash"); VS (lit "-c"); VS c]
   | ESleep d => vtag "sleep" [VN (d / NANOS); VN (d mod NANOS)]
   | EShutdown id => vtag "shutdown" [VN id]
+  | EPanicked => vtag "panicked" []
   end.
 
 Definition d_ans (v : val) : ans := if tag_is v "echo" then AEcho else AOut (d_dbout v).
@@ -29,11 +30,22 @@ Definition e_result (r : record) (p : routput * verdict) : val :=
   | Unreachable => vtag "unreachable" []
   end.
 
-(* placeholder until Subst.v is plugged in below *)
-Definition no_subst (is_sql : bool) (vars : list (str * str)) (s : str) : str + str := inl s.
+(* Runner::may_substitute with substitution on: subst::substitute for SQL, simple_replace for
+   commands; the process environment is the oracle table [env] *)
+Definition real_subst (env : list (str * str)) (is_sql : bool) (vars : list (str * str)) (s : str) : subres :=
+  if is_sql then
+    match substitute_sql (fun k => assoc_str k env) vars s with
+    | SText t => SubOk t
+    | SErrMsg m => SubErr m
+    | SPanicked => SubPanic
+    end
+  else SubOk (substitute_cmd vars s).
+Definition no_subst := real_subst [].
+
+Definition is_epanic (e : event) : bool := match e with EPanicked => true | _ => false end.
 
 Section RunFamily.
-  Variable substitute : bool -> list (str * str) -> str -> str + str.
+  Variable substitute : bool -> list (str * str) -> str -> subres.
 
   (* case = [mode; records; oracle; strict; labels; vars; threshold; engine;
              answers; default; make_fail; sys; sys_default; shutdown] *)
@@ -53,10 +65,12 @@ Section RunFamily.
     if too_many then VS (lit "retry-attempts-too-large-for-model") else
     if str_eqb mode (lit "each") then
       let '(ev, st', w', l) := run_each re substitute sc st world0 rs in
+      if existsb is_epanic ev then VS (lit "panic") else
       let ev := if get_b (arg 13 v) then ev ++ shutdown_all st' else ev in
       VL [VL (map (fun p => e_result (fst p) (snd p)) (combine rs l)); vlist e_event ev]
     else
       let '(ev, st', w', f) := run_multi re substitute sc st world0 rs in
+      if existsb is_epanic ev then VS (lit "panic") else
       let ev := if get_b (arg 13 v) then ev ++ shutdown_all st' else ev in
       VL [e_final f; vlist e_event ev].
 
@@ -64,9 +78,14 @@ Section RunFamily.
     run_records_with dflt (map d_record (get_l (arg 1 v))) v.
 End RunFamily.
 
+Definition d_pairs (v : val) : list (str * str) :=
+  map (fun p => (get_s (arg 0 p), get_s (arg 1 p))) (get_l v).
+
+(* run-case argument 14: the process environment [[name, value]...] *)
 Definition run_case (v : val) : val :=
-  let a := run_case_with no_subst false v in
-  let b := run_case_with no_subst true v in
+  let sub := real_subst (d_pairs (arg 14 v)) in
+  let a := run_case_with sub false v in
+  let b := run_case_with sub true v in
   if val_eqb a b then a else VS (lit "oracle-miss").
 
 (* ---- family "parse": case = [text; two-letter column type?; re_valid table [[pattern, bool]...]] *)
@@ -164,7 +183,7 @@ Definition file_case_with (dflt : bool) (v : val) : val :=
   | VL [] => VL [e_fpres pr]
   | rc =>
       match pr with
-      | FOkR rs => VL [e_fpres pr; run_records_with no_subst dflt rs rc]
+      | FOkR rs => VL [e_fpres pr; run_records_with (real_subst (d_pairs (arg 14 rc))) dflt rs rc]
       | FErrR k l => VL [e_fpres pr; VL [vtag "err" [VN 0; VN k; e_loc l]; VL []]]
       | _ => VL [e_fpres pr; VL [vtag "panic" []; VL []]]
       end
@@ -175,6 +194,41 @@ Definition file_case (v : val) : val :=
   let b := file_case_with true v in
   if val_eqb a b then a else VS (lit "oracle-miss").
 
+(* ---- family "update": [main; fs; glob; two?; re_valid; run-case; sep; format_only] *)
+Definition e_written (l : list (str * list N)) : val :=
+  vlist (fun p => VL [VS (fst p); VS (snd p)]) l.
+
+Definition update_case_with (dflt : bool) (v : val) : val :=
+  let col := if get_b (arg 3 v) then two_col else default_col in
+  let fuel := S (S (length (get_l (arg 1 v)))) in
+  let pr := parse_file col (tbl1_lookup (get_l (arg 4 v)) dflt)
+                       (fs_lookup (get_l (arg 1 v))) (glob_lookup (get_l (arg 2 v))) fuel (get_s (arg 0 v)) in
+  let rc := arg 5 v in
+  match pr with
+  | FOkR rs =>
+      let re := tbl_lookup (get_l (arg 2 rc)) dflt in
+      let st := mkRState (mkConfig None None (get_n (arg 6 rc)) (get_b (arg 3 rc))) false
+                         (d_strs (arg 4 rc)) []
+                         (map (fun p => (get_s (arg 0 p), get_s (arg 1 p))) (get_l (arg 5 rc))) in
+      let sc := mkScript (map d_ans (get_l (arg 8 rc))) (d_ans (arg 9 rc))
+                         (map get_n (get_l (arg 10 rc)))
+                         (map d_sysout (get_l (arg 11 rc))) (d_sysout (arg 12 rc))
+                         (get_s (arg 7 rc)) in
+      match update_records re (get_s (arg 6 v)) (get_b (arg 3 rc)) (real_subst (d_pairs (arg 14 rc))) sc (get_b (arg 7 v))
+                           (get_s (arg 0 v)) rs st with
+      | UOk written ev kn =>
+          if existsb is_epanic ev then VL [e_fpres pr; vtag "panic" [e_written []; VL []; VL []]]
+          else VL [e_fpres pr; vtag "ok" [e_written written; vlist e_event ev; vlist VN kn]]
+      | UPanic written ev open_files => VL [e_fpres pr; vtag "panic" [e_written written; vlist e_event ev; e_strs open_files]]
+      end
+  | _ => VL [e_fpres pr]
+  end.
+
+Definition update_case (v : val) : val :=
+  let a := update_case_with false v in
+  let b := update_case_with true v in
+  if val_eqb a b then a else VS (lit "oracle-miss").
+
 (* family dispatcher used by the extracted runner and by the vm_compute cross-check *)
 Definition model_main (fam : str) (v : val) : val :=
   if str_eqb fam (lit "run") then run_case v
@@ -182,4 +236,5 @@ Definition model_main (fam : str) (v : val) : val :=
   else if str_eqb fam (lit "format") then format_case v
   else if str_eqb fam (lit "trim") then trim_case v
   else if str_eqb fam (lit "file") then file_case v
+  else if str_eqb fam (lit "update") then update_case v
   else VS (lit "unknown-family").
